@@ -104,6 +104,18 @@ def gen_cases(tier, seed):
                             else ("raw",)):
                     cases.append({"kind": "sharded", "strategy": strategy, "shard_enc": senc,
                                   "op": op, "encoding": enc})
+    # lossy chunks: JPEG files are stored as they are (never gzipped), so a partial file is
+    # a truncated JPEG stream
+    for flat in (False, True):
+        for op in ("store_chunk_new", "create+write", "fetch_chunk"):
+            cases.append({"kind": "file", "flat": flat, "gzip": True, "op": op,
+                          "encoding": "jpeg"})
+    # a directory converted twice, with gzip first and without afterwards: outdated .gz
+    # variants lie next to the current files
+    for flat in (False, True):
+        for op in ("fetch_chunk", "fetch_file", "file_exists_gz", "store_chunk_overwrite"):
+            cases.append({"kind": "file", "flat": flat, "gzip": False, "op": op,
+                          "encoding": "raw", "stale_gz": True})
     # a scale spread over six shard files (one chunk each): the close of the scale writes
     # them one after the other, and a failure in any of them must surface
     for strategy in ("on disk", "in memory"):
@@ -114,7 +126,7 @@ def gen_cases(tier, seed):
     if tier == "thorough":
         # the same enumeration on other dataset geometries / payloads
         for k in range(30):
-            base = dict(rnd.choice(cases[:64]))
+            base = dict(rnd.choice(cases[:78]))
             base["variant"] = rnd.randrange(1, 2 ** 16)
             cases.append(base)
     # cases that start threads / child processes come last (the storage cases fork)
@@ -145,12 +157,20 @@ def _info(case, sharding=None):
         sc2 = json.loads(json.dumps(sc))
         sc2["key"] = "k_old"
         scales = [sc, sc2]
-    return {"type": "image", "data_type": "uint32", "num_channels": 1, "scales": scales}
+    return {"type": "image", "data_type": "uint8" if case["encoding"] == "jpeg" else "uint32",
+            "num_channels": 1, "scales": scales}
+
+
+_JPEG = [False]      # set by the scenario under construction
 
 
 def _arr(np, coords, salt):
     shape = (1, coords[5] - coords[4], coords[3] - coords[2], coords[1] - coords[0])
     g = np.random.default_rng(abs(hash((coords, salt))) % 2 ** 32)
+    if _JPEG[0]:
+        # one grey level per chunk, far from mid-grey: the lossy encoding reproduces a
+        # uniform chunk exactly
+        return np.full(shape, 16 + 8 * int(g.integers(0, 28)), dtype=np.uint8)
     return g.integers(0, 5, size=shape).astype(np.uint32) * np.uint32(1000 + salt)
 
 
@@ -161,6 +181,7 @@ class Scenario:
         self.np, self.case, self.top = np, case, top
         self.d = os.path.join(top, "ds")
         self.variant = case.get("variant", 0)
+        _JPEG[0] = case.get("encoding") == "jpeg"
 
     # -- preparation (outside of the hook)
     def prepare(self):
@@ -172,6 +193,15 @@ class Scenario:
             self.acc = file_accessor.FileAccessor(self.d, flat=case["flat"],
                                                   gzip=case["gzip"])
             self.info = _info(case)
+            if case.get("stale_gz"):
+                # the directory was first written with gzip (other contents), then converted
+                # again with --no-gzip: every item exists as NAME and as an outdated NAME.gz
+                oldacc = file_accessor.FileAccessor(self.d, flat=case["flat"], gzip=True)
+                oldpio = precomputed_io.get_IO_for_new_dataset(_info(case), oldacc)
+                for c in COORDS[:3]:
+                    oldpio.write_chunk(_arr(np, c, 21 + self.variant), "k", c)
+                oldacc.store_file("mesh/blob", b"OLDBLOB" * 40)
+                os.remove(os.path.join(self.d, "info"))
             if case["op"] != "create+write":
                 self.pio = precomputed_io.get_IO_for_new_dataset(self.info, self.acc)
                 self.model[("file", "info")] = self.acc.fetch_file("info")
@@ -242,7 +272,8 @@ class Scenario:
                 self.pending[("file", "mesh/sub/frag:0")] = b"FRAGMENT" * 40
                 return self.acc.store_file("mesh/sub/frag:0", b"FRAGMENT" * 40)
             if op == "fetch_file":
-                return self.acc.fetch_file("meta/extra.json")
+                return self.acc.fetch_file("mesh/blob" if case.get("stale_gz")
+                                           else "meta/extra.json")
             if op == "file_exists":
                 return self.acc.file_exists("info")
             if op == "file_exists_missing":
@@ -333,6 +364,17 @@ def _listing(d):
         for f in files:
             out.append(os.path.relpath(os.path.join(root, f), d))
     return sorted(out)
+
+
+def _same_files(listing, ref):
+    """The fault-free run's files are all there, and nothing else lies at a documented name
+    (NAME or NAME.gz of one of them).  A leftover under another name - e.g. a temporary file
+    whose removal was the call that failed - changes nothing a reader can see."""
+    have, want = set(listing), set(ref)
+    if not want <= have:
+        return False
+    documented = want | {n + ".gz" for n in want} | {n[:-3] for n in want if n.endswith(".gz")}
+    return not ((have - want) & documented)
 
 
 def _run_op(np, case, mode, k=None, err=None, when="before", in_child=False):
@@ -459,8 +501,7 @@ def run_storage(case):
                         audit.get(it, (None,))[0] == ref_audit[it][0]
                         and (ref_audit[it][0] != "ok"
                              or _same_value(np, audit[it][1], ref_audit[it][1]))
-                        for it in ref_audit) and [
-                        x for x in _listing(sc.d)] == ref_listing
+                        for it in ref_audit) and _same_files(_listing(sc.d), ref_listing)
                     if same_result and same_effect:
                         obs["absorbed_faults"] += 1
                     else:
